@@ -122,7 +122,13 @@ def tlc(ctx, cfg, module, workers=12, timeout=900, simulate=None, depth=None, en
                 m = re.match(r"^<(\w+) line (\d+), col \d+ to line \d+, col \d+ of module (\w+)( \([\d ]+\))?>: (\d+):(\d+)", line)
                 if m:
                     last[(m.group(1), m.group(3), m.group(4) or "")] = int(m.group(6))
-        never_fired = [f"{k[0]}{k[2]} of {k[1]}" for k, n in last.items() if n == 0]
+        # named actions are reported by name; a wrapper disjunct whose parts are named actions shows "0:0" under a
+        # (line col line col) location although its parts fired, so located entries only count when nothing is named
+        named = {k: n for k, n in last.items() if not k[2] and k[0] not in ("Bound",)}
+        located = {k: n for k, n in last.items() if k[2]}
+        never_fired = [f"{k[0]} of {k[1]}" for k, n in named.items() if n == 0]
+        if len(named) <= 1:
+            never_fired += [f"{k[0]}{k[2]} of {k[1]}" for k, n in located.items() if n == 0]
     run = dict(cfg=os.path.relpath(cfg, SPEC) if os.path.isabs(cfg) else cfg, module=module, distinct_states=distinct, states_generated=generated,
                depth=depth_found, wall_s=round(wall, 2), ok=ok, mode="simulate" if simulate else "exhaustive")
     if coverage:
@@ -187,7 +193,7 @@ def hv(ctx, command, **kw):
 
 def tlc_trace(ctx, cfg, module, trace_file, timeout=1800):
     """impl -> spec: TLC validates recorded events/bytes. Returns (accepted, index of first rejected record or None)."""
-    r = tlc(ctx, cfg, module, workers=1, timeout=timeout, env={"TRACE": trace_file,
+    r = tlc(ctx, cfg, module, workers=1, timeout=timeout, jvm=["-Xmx2g"], env={"TRACE": trace_file,
             "JAVA_TOOL_OPTIONS": "-Xss1g -Dtlc2.tool.queue.IStateQueue=StateDeque"}, count=True, allow_fail=True)
     if r["ok"]:
         return True, None
